@@ -24,6 +24,7 @@ ASSUMPTIONS = [
     "legal argument domains are those of the reference tables (dalimc.spec): 64 short / 16 or 32 group / broadcast / unaddressed, 195 instance bytes (0xFE excluded as stated), 0..15 / 0..255 parameters, 10-bit illuminance, 4 occupancy flags",
     "bool is accepted wherever int is (it is an int)",
     "rejection = any exception; no exception type is pinned",
+    "the illegal alphabet is also run in an interpreter started with -O; other interpreter options (-OO, -X) are not varied",
 ]
 CHAIN_STRIDE = {'quick': 6, 'thorough': 6}      # every k-th shard is re-run in chains inside one process (non-initial process states)
 BOUNDS = {"quick": "all classes, all destinations, instance bytes at kind boundaries, 2-byte specials on a 20x20 grid, event fields/data at boundaries",
@@ -40,6 +41,7 @@ def shards(tier):
         for sch in S.EVENT_SCHEMES:
             out.append(("event", ec[1], sch, tier, ec[0], ec[2]))
     out.append(("illegal",))
+    out.append(("illegal-optimised",))
     return out
 
 
@@ -274,6 +276,40 @@ def run_shard(shard):
                           f"{label} was accepted" + (f" and encoded as {fr}" if fr is not None else ""),
                           {"t": "illegal", "idx": i, "label": label})
         sample(res, {"illegal_probes": len(illegal_probes()), "examples": [l for l, _ in illegal_probes()[:5]]})
+    elif k == "illegal-optimised":
+        # the same illegal alphabet in an interpreter started with -O (assert statements compiled out): rejection
+        # "with an exception" must not hinge on an interpreter option
+        import json
+        import os
+        import subprocess
+        import sys
+        from dalimc.core import repo
+        verif = os.path.dirname(os.path.dirname(os.path.dirname(os.path.abspath(__file__))))
+        script = ("import sys, json\n"
+                  "assert False, 'not optimised'\n"
+                  "from dalimc.core import repo\n"
+                  "repo.setup()\n"
+                  "from dalimc.checks import c02\n"
+                  "out = []\n"
+                  "for i, (label, fn) in enumerate(c02.illegal_probes()):\n"
+                  "    try:\n"
+                  "        obj = fn()\n"
+                  "    except Exception as e:\n"
+                  "        continue\n"
+                  "    out.append([i, label, str(getattr(obj, 'frame', None))])\n"
+                  "json.dump({'n': len(c02.illegal_probes()), 'accepted': out}, sys.stdout)\n")
+        env = {"PYTHONPATH": verif, "VERIF_REPO": repo.REPO, "PATH": "/usr/bin:/bin", "PYTHONHASHSEED": "0", "PYTHONDONTWRITEBYTECODE": "1"}
+        p = subprocess.run([sys.executable, "-O", "-c", script], capture_output=True, text=True, env=env, timeout=300)
+        if p.returncode != 0:
+            add_violation(res, "C02:illegal-optimised:fails", f"probe run under python -O failed: {p.stderr[-400:]}", {"t": "illegal-optimised", "label": None})
+        else:
+            o = json.loads(p.stdout)
+            res["evaluations"] += o["n"]
+            for i, label, fr in o["accepted"]:
+                add_violation(res, f"C02:illegal-accepted-under-O:{label.split('(')[0]}", f"{label} was accepted by an interpreter started with -O (frame {fr})",
+                              {"t": "illegal-optimised", "idx": i, "label": label})
+            res["distinct"].add(("illegal-optimised", o["n"]))
+        sample(res, {"illegal_probes_under_python_O": res["evaluations"]})
     return res
 
 
@@ -289,6 +325,9 @@ def replay(case):
         event_roundtrip(res, case["mod"], case["name"], case["itype"], case["scheme"], case["fields"], case["data"], case["form"], from_frame)
     elif t == "dapc":
         return run_shard(("dapc",))["violations"]
+    elif t == "illegal-optimised":
+        vs = run_shard(("illegal-optimised",))["violations"]
+        return [v for v in vs if v["case"]["label"] == case["label"]]
     else:
         vs = run_shard(("illegal",))["violations"]
         return [v for v in vs if v["case"]["label"] == case["label"]]
